@@ -147,7 +147,9 @@ def run(F, R, tier):
                 continue
             seen.add((base, field))
             r1.site("%s takes mutable access to data.%s" % (L.short(base), field))
-            r1.require(base in MUTATORS, (base, "mutates", field), "%s obtains mutable access to CoreDocumentData.%s but is not a reviewed mutator" % (L.short(base), field))
+            # (a private helper all of whose transitive callers are reviewed mutators acts on their behalf: what it does with the access is part
+            # of what C04-R2/R3/R8 decide for those mutators, with helpers inlined)
+            r1.require(base in MUTATORS or bool(L.private_helper_of(F, base, set(MUTATORS))), (base, "mutates", field), "%s obtains mutable access to CoreDocumentData.%s but is not a reviewed mutator" % (L.short(base), field))
     for sym, why in MUTATORS.items():
         if "unchecked" in why or "reviewed" in why:
             r1.exception(sym, "reviewed", why)
@@ -294,28 +296,8 @@ def run(F, R, tier):
                     ok = True
         r3.site("insert_service: (!id_exists) && service.append(service): %s" % ok)
         r3.require(ok, (fn, "guarded-append"), "insert_service does not append only when !id_exists (short-circuit)")
-    fn = CD + "::attach_method_relationship"
-    h = F.hir(fn)
-    if h:
-        env = H.Env(h)
-        apps = [n for n in H.walk(H.root(h)) if n.get("k") == "mcall" and n["name"] == "append" and data_field_of(n["recv"], env)]
-        okr = True
-        for a_ in apps:
-            arg = a_["args"][0]
-            oo = H.origins(arg, env, extra=re.compile(r"::clone$"), accessors=re.compile(r"VerificationMethod::id$"))
-            ctor = [x for x in H.walk(H.root(h)) if x.get("k") == "call" and x.get("ctor") and H.variant_name(x["ctor"]) == "Refer"]
-            okr &= bool(ctor) and bool(oo) and all(o[0] == "call" and o[1].endswith("resolve_method") for o in oo)
-        r3.site("attach: %d appends of MethodRef::Refer(resolved method id): %s" % (len(apps), okr))
-        r3.require(len(apps) == 5 and okr, (fn, "refer-of-resolved"), "attach_method_relationship does not append exactly a MethodRef::Refer of the id of the resolved method in each of the five sets")
-        # resolution in scope VerificationMethod first
-        rm = H.calls(h, CD + "::resolve_method")
-        scopes = []
-        for c in rm:
-            sc = H.strip(H.call_args(c)[2])
-            names = [H.variant_name(x.get("res", {})) for x in H.walk(sc) if x.get("k") == "path"]
-            scopes.append(names)
-        r3.require(any("VerificationMethod" in s for s in scopes), (fn, "scope"), "attach does not resolve the target among the general-purpose methods (scope VerificationMethod)")
-    r3.floor(7)
+    # (attach_method_relationship: what is appended, where and after which lookup is decided on its decision table — C04-R8)
+    r3.floor(6)
 
     # ------------------------------------------------------------------ R5 scope tables
     r5 = R.rule("C04-R5", "T4+T5", "every match over MethodScope/MethodRelationship is exhaustive without wildcard and maps each variant to its own collection (Authentication ↔ authentication, …)")
@@ -326,7 +308,14 @@ def run(F, R, tier):
             continue
         env = H.Env(h)
         checked = 0
-        for m in [n for n in H.walk(H.root(h)) if n.get("k") == "match" and n.get("src") == "normal"]:
+        # the table may live in a private helper of the function (`relationship_set_mut(relationship)`): the helper's body is read with its
+        # own environment
+        bodies_ = [(h, env)]
+        for hf_, root_ in L.with_helpers(F, fn):
+            hh_ = F.hir(hf_)
+            if hf_ != fn and hh_ is not None and L.private_helper_of(F, hf_, {fn} | set(fns)):
+                bodies_.append((hh_, H.Env(hh_)))
+        for m, env in [(n, e_) for (hb_, e_) in bodies_ for n in H.walk(H.root(hb_)) if n.get("k") == "match" and n.get("src") == "normal"]:
             vs = []
             for arm in m["arms"]:
                 ps = H.pat_str(arm["pat"])
@@ -409,6 +398,10 @@ def run(F, R, tier):
                 r8.require(good, (fn, "attached-method"), "attach_method_relationship appends something other than Refer(id of the general-purpose method this query resolves to — "
                            "resolve_method(query, Some(VerificationMethod)) ✓): with two methods sharing a fragment a fragment-only query can alias an embedded method — path: %s" % q.describe()[:160])
                 r8.require(ok, (fn, "attached-method", "outcome"), "attach_method_relationship appends and then fails")
+                rel_v = next((v_ for t_, v_ in q.variant.items() if t_ == SR.param(SY.param_name(F, fn, 2, "relationship")) and v_ in VARIANT_FIELD), None)
+                tgt = SY.term(apps[0].args[0])
+                r8.require(rel_v is not None and tgt == ("field", ("field", SR.SELF, "data"), VARIANT_FIELD[rel_v]), (fn, "attached-set"),
+                           "attach_method_relationship(.., %s) appends to %s, not to data.%s" % (rel_v, SY.fmt(tgt)[:60], VARIANT_FIELD.get(rel_v)))
             else:
                 r8.require(not ok, (fn, "ok-without-append"), "attach_method_relationship succeeds without attaching anything")
                 r8.require(bool(scoped) and all(q.variant.get(e.result.t) == "None" for e in scoped), (fn, "refusal"), "attach_method_relationship refuses although the query resolves to a general-purpose method (or without asking)")
